@@ -20,7 +20,7 @@ RULE = (
     "auto_cutter=True with 2..n-1 device wires, KaHyPar seed from the spec, optional CutStrategy(min_free_wires / "
     "num_fragments_probed). Oracle: every returned tape is run on pv.ref.sim on its own wires, the post-processing function "
     "is applied and must equal the reference expectation of the circuit with the WireCuts removed (1e-8). mc: 3-4 wire "
-    "circuits with one WireCut (15% two), sample(wires=subset in random order), 4000-6000 shots, classical_processing_fn = "
+    "circuits with one WireCut (15% two), sample(wires=subset in random order), 4000 shots (6000 in the docstring example), classical_processing_fn = "
     "+-parity of a subset of the *positions of the sampled wires* (scaled by 1 or 0.5), settings seed from the spec; each "
     "one-shot fragment tape is sampled by inverse CDF from its exact joint distribution with uniforms from "
     "numpy.default_rng(sha1(spec)); the estimate must lie within the Bernstein radius t (two-sided failure probability 5e-10, "
@@ -35,7 +35,7 @@ ASSUMPTIONS = [
     "If the automatic cutter raises ValueError because no partition satisfies the strategy the case is rejected; whether fragments fit the device is recorded as a label, not asserted.",
     "MC uniforms come from numpy's PCG64 seeded with a hash of the spec (deterministic per case), as the task prescribes for the statistical clause.",
 ]
-BUDGET = {"quick": {"examples": 700}, "thorough": {"examples": 30000, "shards": 16}}
+BUDGET = {"quick": {"examples": 600}, "thorough": {"examples": 30000, "shards": 16}}
 SHRINK_LISTS = ("ops",)
 
 POOL = {**gen.GATES1, **gen.GATES2}
@@ -71,11 +71,11 @@ def _gates(R, ws, lo, hi, two=0.55):
     return ops
 
 
-def _place_cuts(R, ops, ws, n_cuts, measured):
+def _place_cuts(R, ops, ws, n_cuts, measured, allow_multi=True):
     """Insert WireCut specs. Returns the new op list."""
     ops = list(ops)
     for _ in range(n_cuts):
-        multi = len(ws) >= 2 and R.random() < 0.12
+        multi = allow_multi and len(ws) >= 2 and R.random() < 0.12
         good = []
         for i in range(1, len(ops) + 1):
             for w in ws:
@@ -98,14 +98,44 @@ def _dev_wires(R, k):
     return [f"d{i}" for i in range(k)] if R.random() < 0.5 else list(range(k))
 
 
+def _blocky(R, ws):
+    """Two (or three) blocks of gates that only share the wire that is cut between them: guarantees >= 2 fragments."""
+    ws = list(ws)
+    R.shuffle(ws)
+    n_blocks = 3 if len(ws) >= 5 and R.random() < 0.3 else 2
+    sizes = [1] * n_blocks
+    for _ in range(len(ws) - 1 - n_blocks):
+        sizes[R.randint(0, n_blocks - 1)] += 1
+    ops, pos = [], 0
+    shared = ws[0]
+    rest = ws[1:]
+    for b in range(n_blocks):
+        block = rest[pos:pos + sizes[b]] + [shared]
+        pos += sizes[b]
+        if b:
+            ops.append({"op": "WireCut", "p": [], "w": [shared]})
+        g = _gates(R, block, 2, 4)
+        if not any(shared in o["w"] and len(o["w"]) == 2 for o in g):
+            g.append({"op": R.choice(["CNOT", "CZ", "CRX"]), "p": [], "w": [shared, block[0]]})
+            if g[-1]["op"] == "CRX":
+                g[-1]["p"] = [rgen.angle(R)]
+        ops += g
+    return ops
+
+
 def case_cut(R, tier):
     n = R.randint(3, 5 if tier == "quick" else 6)
     ws = rgen.wire_labels(R, n)
-    ops = _gates(R, ws, 3, 9)
     obs = _obs(R, ws)
     measured = specs.spec_wires(obs)
-    n_cuts = R.choice([1, 1, 2] if tier == "quick" else [1, 1, 2, 2, 3])
-    ops = _place_cuts(R, ops, ws, n_cuts, measured)
+    if R.random() < 0.55:
+        ops = _blocky(R, ws)
+        if R.random() < 0.3:
+            ops = _place_cuts(R, ops, ws, 1, measured)
+    else:
+        ops = _gates(R, ws, 3, 9)
+        n_cuts = R.choice([1, 1, 2] if tier == "quick" else [1, 1, 2, 2, 3])
+        ops = _place_cuts(R, ops, ws, n_cuts, measured)
     k = n + sum(len(o["w"]) for o in ops if o["op"] == "WireCut")
     return {"t": "cut", "wires": ws, "ops": ops, "obs": obs, "dev": _dev_wires(R, k), "opt_einsum": R.random() < 0.3}
 
@@ -132,18 +162,18 @@ def case_mc(R, tier):
     ops = _gates(R, ws, 3, 7)
     mw = rgen.subset(R, ws, 1, n)
     K = 2 if R.random() < 0.15 else 1
-    ops = _place_cuts(R, ops, ws, K, mw)
+    ops = _place_cuts(R, ops, ws, K, mw, allow_multi=False)
     T = rgen.subset(R, list(range(len(mw))), 1, len(mw))
     return {"t": "mc", "wires": ws, "ops": ops, "mw": mw, "T": sorted(T), "sign": R.choice([1, -1]), "fscale": R.choice([1.0, 1.0, 0.5]),
-            "shots": R.choice([4000, 6000]), "seed": R.randint(0, 10**6), "dev": _dev_wires(R, n + 2 * K)}
+            "shots": 4000, "seed": R.randint(0, 10**6), "dev": _dev_wires(R, n + 2 * K)}
 
 
 def strategy(tier):
     def mk(R):
         r = R.random()
-        if r < 0.62:
+        if r < 0.8:
             return case_cut(R, tier)
-        if r < 0.985:
+        if r < 0.995:
             return case_auto(R, tier)
         return case_mc(R, tier)
     return rgen.seeded(mk)
@@ -164,8 +194,14 @@ def enumerate_cases(tier):
     x = lambda w: {"op": "PauliX", "p": [], "w": [w]}
     yield {"t": "mc", "wires": [0, 1, 2], "ops": [x(2), cn(2, 1), cut(1), cn(1, 0), x(1)], "mw": [0, 1, 2], "T": [1], "sign": 1, "fscale": 1.0,
            "shots": 4000, "seed": 5, "dev": [0, 1, 2]}
-    yield {"t": "mc", "wires": [0, 1, 2], "ops": [x(2), cn(2, 1), cut(1), cn(1, 0), x(1)], "mw": [0, 1, 2], "T": [0, 1, 2], "sign": -1, "fscale": 1.0,
-           "shots": 4000, "seed": 6, "dev": [0, 1, 2]}
+    # basis probes: the whole expectation is carried by the X / Y / Z settings of the cut (a wrong sign or pairing of one
+    # setting changes the estimate by 1)
+    g = lambda nm, w: {"op": nm, "p": [], "w": [w]}
+    probes = {"X": [g("Hadamard", 0), cut(0), g("Hadamard", 0)],
+              "Y": [g("Hadamard", 0), g("S", 0), cut(0), {"op": "adjoint", "base": g("S", 0)}, g("Hadamard", 0)],
+              "Z": [x(0), cut(0), rx(0.2, 0)]}
+    for i, ops in enumerate(probes.values()):
+        yield {"t": "mc", "wires": [0], "ops": ops, "mw": [0], "T": [0], "sign": 1, "fscale": 1.0, "shots": 4000, "seed": 21 + i, "dev": [0, 1]}
 
 
 # ------------------------------------------------------------------------------------------------ check helpers
@@ -185,25 +221,28 @@ def _run_all(tapes):
     return res
 
 
-def _find_comm_graph(fn, depth=0):
+def _find_comm_graph(obj, depth=0):
     """The communication graph the post-processing closes over (used for labels / the non-trivial rule only)."""
     import functools
 
-    if depth > 4 or fn is None:
+    if depth > 10 or obj is None:
         return None
-    if isinstance(fn, functools.partial):
-        if "communication_graph" in fn.keywords:
-            return fn.keywords["communication_graph"]
-        return _find_comm_graph(fn.func, depth + 1)
-    for cell in getattr(fn, "__closure__", None) or ():
-        try:
-            v = cell.cell_contents
-        except ValueError:
-            continue
-        if hasattr(v, "number_of_nodes") and hasattr(v, "out_degree"):
-            return v
-        if callable(v):
-            g = _find_comm_graph(v, depth + 1)
+    if hasattr(obj, "number_of_nodes") and hasattr(obj, "out_degree"):
+        return obj
+    kids = []
+    if isinstance(obj, functools.partial):
+        kids = list(obj.keywords.values()) + list(obj.args) + [obj.func]
+    elif isinstance(obj, (list, tuple)):
+        kids = list(obj)
+    elif callable(obj):
+        for cell in getattr(obj, "__closure__", None) or ():
+            try:
+                kids.append(cell.cell_contents)
+            except ValueError:
+                pass
+    for k in kids:
+        if hasattr(k, "number_of_nodes") or isinstance(k, (list, tuple, functools.partial)) or callable(k):
+            g = _find_comm_graph(k, depth + 1)
             if g is not None:
                 return g
     return None
